@@ -185,10 +185,21 @@ def main(argv):
         if a.replay:
             with open(a.replay) as f:
                 body = json.load(f)
-            if not hasattr(mod, 'replay'):
-                print(json.dumps(body, indent=1))
-                return 0
-            return mod.replay(body)
+            if hasattr(mod, 'replay'):
+                return mod.replay(body)
+            rr = (body.get('case') or {}).get('rerun') if isinstance(body.get('case'), dict) else None
+            print('signature: %s\nwhat: %s' % (body.get('signature'), body.get('what')))
+            if rr:
+                m2, fn = rr[0].rsplit('.', 1)
+                job = rr[1]
+                if isinstance(job, list):
+                    job = tuple(tuple(x) if isinstance(x, list) else x for x in job)
+                out = getattr(importlib.import_module(m2), fn)(job)
+                print('re-executed %s on the current tree; observation:' % rr[0])
+                print(json.dumps(out, indent=1, default=jdefault)[:6000])
+            else:
+                print(json.dumps(body, indent=1)[:6000])
+            return 0
         ctx = Ctx(a.pid, tier, seed, mod.LEVEL)
         ctx.extra['copulas_path'] = os.path.dirname(copulas.__file__)
         mod.run(ctx)
